@@ -146,6 +146,14 @@ def hook_packages(
     # ....................{ HOOKS                          }....................
     # With a submodule-specific thread-safe reentrant lock...
     with claw_lock:
+        # ....................{ CONFLICTS                  }....................
+        # If this configuration conflicts with the configuration previously
+        # registered for one or more of these packages, raise an exception
+        # *BEFORE* modifying any global state below. Doing so guarantees that a
+        # failing registration leaves the registry exactly as it was.
+        _die_if_packages_conflict(
+            claw_coverage=claw_coverage, package_names=package_names, conf=conf)
+
         # ....................{ BLACKLIST                  }....................
         # If blacklisting one or more packages from type-checking, do so.
         # print(f'Blacklisting packages: {repr(conf.claw_skip_package_names)}')
@@ -176,6 +184,75 @@ def hook_packages(
 
 # ....................{ PRIVATE ~ blacklisters             }....................
 #FIXME: Docstring us up, please.
+def _die_if_packages_conflict(
+    claw_coverage: BeartypeClawCoverage,
+    package_names: Optional[IterableStrs],
+    conf: BeartypeConf,
+) -> None:
+    '''
+    Raise an exception if the passed configuration conflicts with the
+    configuration previously registered for either all packages *or* any of the
+    packages with the passed names, *without* modifying any global state.
+
+    Caveats
+    -------
+    **This function is only safely callable in a thread-safe manner from within
+    a** ``with claw_lock:`` **context manager.**
+
+    Raises
+    ------
+    BeartypeClawHookException
+        If this configuration conflicts with a previously registered
+        configuration.
+    '''
+
+    # Avoid circular import dependencies.
+    from beartype.claw._clawstate import claw_state
+
+    # If type-checking *ALL* packages...
+    if claw_coverage is BeartypeClawCoverage.PACKAGES_ALL:
+        conf_curr = claw_state.packages_trie_whitelist.conf_if_hooked
+
+        if conf_curr is not None and conf_curr != conf:
+            raise BeartypeClawHookException(
+                f'beartype_all() previously passed '
+                f'conflicting beartype configuration:\n'
+                f'\t----------( OLD "conf" PARAMETER )----------\n'
+                f'\t{repr(conf_curr)}\n'
+                f'\t----------( NEW "conf" PARAMETER )----------\n'
+                f'\t{repr(conf)}\n'
+            )
+    # Else, only a subset of packages are being type-checked. In this case...
+    else:
+        # For the fully-qualified name of each package to be whitelisted...
+        for package_name in package_names:  # type: ignore[union-attr]
+            # Subtrie describing this package if previously registered *OR*
+            # "None" otherwise, found *WITHOUT* creating new subtries.
+            subpackages_trie_whitelist = claw_state.packages_trie_whitelist
+
+            for package_basename in package_name.split('.'):
+                subpackages_trie_whitelist = subpackages_trie_whitelist.get(  # type: ignore[assignment]
+                    package_basename)
+
+                if subpackages_trie_whitelist is None:
+                    break
+            # If this package was previously registered...
+            else:
+                conf_curr = subpackages_trie_whitelist.conf_if_hooked
+
+                if conf_curr is not None and conf_curr != conf:
+                    raise BeartypeClawHookException(
+                        f'Beartype import hook '
+                        f'(e.g., beartype.claw.beartype_*() function) '
+                        f'previously passed conflicting beartype configuration '
+                        f'for package "{package_name}":\n'
+                        f'\t----------( OLD "conf" PARAMETER )----------\n'
+                        f'\t{repr(conf_curr)}\n'
+                        f'\t----------( NEW "conf" PARAMETER )----------\n'
+                        f'\t{repr(conf)}\n'
+                    )
+
+
 def _blacklist_packages(package_names: IterableStrs) -> None:
     '''
     Recursively **blacklist** (i.e., prevent import hooks from implicitly
